@@ -8,8 +8,8 @@ PROPERTIES = ["C13", "C14"]
 MANIFEST = {
     "C13": {
         "technique": "Lean 4 proof (invariants of a model of the Server client write path over all histories of writes, send outcomes, suspend/resume and peer reads) + differential correspondence model vs real Server on a socket pair with interposed send()",
-        "text": "Theorems over all operation histories of the Lean model of ClientImpl::write/read/suspend/resume and the write-ready branch of Server::run (stream_exact, postponed_is_backlog, onWrite_iff_drained, interest_inv, suspended_no_read); the model is tied to the current Server.cpp/Socket.cpp on every run by executing identical op lines on a real Server whose send() is interposed with scripted outcomes (exhaustive fault sequences + random histories, ASan/UBSan), and by an independent Python byte-stream reference evaluated on the implementation's observations (received stream, return/postponed values, send-buffer size, callback log, intercepted sends, epoll interest).",
-        "note": "Trusted: Lean kernel + the three standard axioms; hand translation of Server.cpp into the model (validated by the correspondence run, not proved); the kernel delivers bytes accepted by send() in order (checked by the harness on a socket pair) and reports a socket pair with free buffer space writable; Buffer behaves as a byte queue (C08); one poll round per `ready` op with one client (the multi-client Poll is part of C14); peer hang-up and read(…,0) are outside the C13 model.",
+        "text": "Theorems over all operation histories of the Lean model of ClientImpl::write/read/suspend/resume and the write-ready branch of Server::run (stream_exact, postponed_is_backlog, onWrite_iff_drained, interest_inv, suspended_no_read; suspended_no_read_batch for several clients with events pending in one poll batch); the model is tied to the current Server.cpp/Socket.cpp on every run by executing identical op lines on a real Server whose send() is interposed with scripted outcomes (exhaustive fault sequences + random histories, ASan/UBSan), and by an independent Python byte-stream reference evaluated on the implementation's observations (received stream, return/postponed values, send-buffer size, callback log, intercepted sends, epoll interest).",
+        "note": "Trusted: Lean kernel + the three standard axioms; hand translation of Server.cpp into the model (validated by the correspondence run, not proved); the kernel delivers bytes accepted by send() in order (checked by the harness on a socket pair) and reports a socket pair with free buffer space writable; Buffer behaves as a byte queue (C08); the byte-stream theorems use the one-client model (one poll round per `ready` op); the clause about suspended clients is additionally proved over the event-loop model of C14 with any number of clients and the poll's pending batch (PropsC13Batch: set_purges_pending_batch, suspended_has_no_pending_read, suspended_no_read_batch, onRead_only_from_poll) and run on the real Server in a second stream (2..5 clients fetched in one epoll_wait batch, suspend/resume from other clients' / timers' / listeners' callbacks; monitor: no onRead between suspend and resume); peer hang-up and read(…,0) are outside the C13 model.",
         "design_ref": "DESIGN.md 3/C13",
     },
     "C14": {
@@ -19,7 +19,7 @@ MANIFEST = {
         "design_ref": "DESIGN.md 3/C14",
     },
 }
-PROPS = {"C13": ["Nstd.Server.PropsC13"], "C14": ["Nstd.Server.PropsC14"]}
+PROPS = {"C13": ["Nstd.Server.PropsC13", "Nstd.Server.PropsC13Batch"], "C14": ["Nstd.Server.PropsC14"]}
 LEAN_TARGETS = ["Nstd.Server.Props", "drv_server"]
 DRIVER = "drv_server"
 
@@ -317,6 +317,7 @@ def check_c13(ctx):
         for h, bad in fc.stream_fail[:3]:
             ctx.violation("byte stream property violated on the implementation: " + bad, "\n".join(h) + f"\n# {bad}\n",
                           signature="stream")
+        check_c13_batch(ctx, harness, quick, proof_ok)
     finally:
         try:
             harness.unlink()
@@ -357,6 +358,9 @@ class Monitor:
         self.auto = 1000
         self.intr = False
         self.err = None
+        self.suspended = set()   # clients between suspend() and resume()
+        self.sus_calls = 0       # suspend() calls on live clients (coverage)
+        self.sus_pending = 0     # … issued from a callback other than the client's own
 
     def fail(self, msg):
         if self.err is None:
@@ -376,20 +380,36 @@ class Monitor:
             if self.alive.get(i) == {"rmt": "t", "rmc": "c", "rml": "l", "rme": "e"}[op]:
                 del self.alive[i]
                 self.timers.pop(i, None)
+                self.suspended.discard(i)
+        elif op == "sus":
+            i = int(a[1])
+            if self.alive.get(i) == "c":
+                self.suspended.add(i)
+                self.sus_calls += 1
+                if self.cur is not None and self.cur != i:
+                    self.sus_pending += 1
+        elif op == "res":
+            self.suspended.discard(int(a[1]))
         elif op == "rmnew":
             if newc is not None and self.alive.get(newc) == "c":
                 del self.alive[newc]
+                self.suspended.discard(newc)
         elif op == "null":
             if newc is not None:
                 self.alive.pop(newc, None)
+                self.suspended.discard(newc)
         elif op == "intr":
             self.intr = True
+
+    cur = None    # object whose callback is running
 
     def callback(self, i, newc, ts):
         k = self.calls.get(i, 0)
         self.calls[i] = k + 1
+        self.cur = i
         for a in self.scripts.get((i, k), []):
             self.act(a, newc, ts)
+        self.cur = None
 
     def top(self, t):
         op = t[0]
@@ -440,6 +460,9 @@ class Monitor:
                 if self.alive.get(c) != "c":
                     self.fail(f"removed_never_called: client {c} called back after remove() returned ({e})")
                     return
+                if m.group(3) == "R" and c in self.suspended:
+                    self.fail(f"suspended_no_read: client {c} got onRead between suspend() and resume() ({e})")
+                    return
                 self.callback(c, None, ts)
             elif m.group(4) is not None or m.group(6) is not None:
                 o, nc = (int(m.group(4)), int(m.group(5))) if m.group(4) is not None else (int(m.group(6)), int(m.group(7)))
@@ -462,9 +485,18 @@ class Monitor:
                 pass
 
 
-def c14_monitor(hist, impl_out):
+def c14_monitor(hist, impl_out, stats=None):
     """returns None or a description of the first property violation visible in the implementation's output"""
     m = Monitor()
+    try:
+        return _c14_monitor(m, hist, impl_out)
+    finally:
+        if stats is not None:
+            stats["suspend_calls"] = stats.get("suspend_calls", 0) + m.sus_calls
+            stats["suspend_from_other_callback"] = stats.get("suspend_from_other_callback", 0) + m.sus_pending
+
+
+def _c14_monitor(m, hist, impl_out):
     for line, o in zip(hist, impl_out):
         t = line.split()
         if o.startswith("ENV-FAIL") or o == "bad-op":
@@ -868,6 +900,130 @@ def c14_shrink(harness, h, sig):
         return h
 
 
+# ---- C13, several clients and the pending batch (op lines of the C14 dialect) -----------------------
+def c13_batch_exhaustive():
+    """n = 2..4 readable socket-pair clients fetched by ONE epoll_wait in every order; a victim whose read event is
+    still pending in that batch is suspended (a) by the callback of the client dispatched first, (b) suspended and
+    resumed by it, (c) resumed one batch entry later, (d) by a timer that fires between two events of the batch,
+    (e) by a listener's onAccepted dispatched first, (f) while the first client drains a backlog; afterwards it is
+    resumed at top level and must be notified again"""
+    hs = []
+    for n in (2, 3, 4):
+        ids = list(range(1, n + 1))
+        base = [f"mkpair {i}" for i in ids] + [f"psend {i} 3" for i in ids]
+        for order in itertools.permutations(ids):
+            o = ",".join(map(str, order))
+            for v in order[1:]:
+                tail = [f"act res:{v}", f"run all {o} -"]
+                hs.append(base + [f"script {order[0]} 0 sus:{v}", f"run all {o} - {o} -"] + tail)
+                hs.append(base + [f"script {order[0]} 0 sus:{v},res:{v}", f"run all {o} - {o} -"] + tail)
+                hs.append(base + [f"script {order[0]} 0 sus:{v}", f"script {order[0]} 1 res:{v}", f"run all {o} {o} {o} -"] + tail)
+                hs.append(base + ["act mk:20:1", f"script 20 0 sus:{v}", f"script 20 2 res:{v}",
+                                  f"run all {o}+1 {o}+1 {o}+1 -"] + tail)
+                hs.append(base + ["mklisten 30", "dial 30", f"script 30 0 sus:{v}", f"run all 30,{o} - {o} -"] + tail)
+                hs.append(base + [f"act wr:{order[0]}:40:2", f"script {order[0]} 0 sus:{v}", f"run half {o} {o} {o} {o} -"] + tail)
+    return hs
+
+
+def c13_batch_random(rng):
+    h = []
+    n = rng.randint(2, 5)
+    ids = list(range(1, n + 1))
+    timers = list(range(20, 20 + rng.randint(0, 2)))
+    for i in ids:
+        h.append(f"mkpair {i}")
+    for t in timers:
+        h.append(f"act mk:{t}:{rng.randint(1, 2)}")
+    owners = ids + timers
+    for o in owners:
+        for k in range(5):
+            if rng.random() < 0.45:
+                acts = []
+                for _ in range(rng.randint(1, 3)):
+                    r = rng.random()
+                    x = rng.choice(ids)
+                    if r < 0.40: acts.append(f"sus:{x}")
+                    elif r < 0.70: acts.append(f"res:{x}")
+                    elif r < 0.82: acts.append(f"rd:{x}")
+                    elif r < 0.92: acts.append(f"wr:{x}:{rng.choice([5, 40])}:{rng.choice(['wb', '2', 'half', 'all'])}")
+                    else: acts.append(f"rmc:{x}")
+                h.append(f"script {o} {k} {','.join(acts)}")
+    for _ in range(rng.randint(2, 5)):
+        for i in ids:
+            if rng.random() < 0.6:
+                h.append(f"psend {i} {rng.choice([1, 3])}")
+        if rng.random() < 0.3:
+            h.append(f"act {rng.choice(['sus', 'res'])}:{rng.choice(ids)}")
+        entries = []
+        for _ in range(rng.randint(1, 8)):
+            e = ",".join(map(str, rng.sample(ids, rng.randint(1, n))))
+            if rng.random() < 0.5: e += f"+{rng.randint(0, 2)}"
+            entries.append(e if rng.random() < 0.9 else "-")
+        h.append(f"run {rng.choice(['all', 'half', 'wb', '1'])} " + " ".join(entries))
+    return h
+
+
+def c13_batch_reference(hist, impl_out):
+    return list(impl_out)       # judged by the monitor (suspended_no_read on the callback log) and against the model
+
+
+c13_batch_reference.uses_impl = True
+
+
+class BatchStats:
+    def __init__(self):
+        self.lock = threading.Lock()
+        self.fail = []
+        self.stats = {}
+        self.reads = 0
+
+    def nontrivial(self, h, out):
+        st = {}
+        bad = c14_monitor(h, out, st) if len(out) == len(h) else None
+        reads = sum(o.split(" | ")[0].count(".R@") for o in out if " | " in o)
+        with self.lock:
+            for k, v in st.items():
+                self.stats[k] = self.stats.get(k, 0) + v
+            self.reads += reads
+            if bad:
+                self.fail.append((h, bad))
+        runs = tuple(o.split(" | ")[0] for l, o in zip(h, out) if l.startswith("run"))
+        return runs if any(r.count("@") > 1 for r in runs) else None
+
+
+def check_c13_batch(ctx, harness, quick, proof_ok):
+    """second stream of C13: several clients of one Server, events pending in one poll batch, suspend/resume
+    issued from other objects' callbacks"""
+    rng = ctx.rng
+    ex = c13_batch_exhaustive()
+    nr = (4000 if quick else 60000) * (1 if proof_ok else 3)
+    rnd = [c13_batch_random(rng) for _ in range(nr)]
+    hs = C.load_corpus("C13-batch") + ex + rnd
+    bs = BatchStats()
+    diffs = C.differential(ctx, harness, C.driver_path(DRIVER), hs, c13_batch_reference, nontrivial=bs.nontrivial, timeout=600)
+    diffs = [d for d in diffs if not (d.impl or "").startswith("ENV-FAIL")]
+    ctx.cov["batch_stream"] = {"exhaustive_histories": len(ex), "random_histories": len(rnd), "onRead_seen": bs.reads, **bs.stats}
+    ctx.cov["rule"] += (f" || stream 2 (several clients, pending batch; op lines of the C14 dialect): exhaustive — 2..4 readable clients fetched by "
+                        f"one epoll_wait in every order x every victim still pending in the batch x 6 ways of suspending it (first client's "
+                        f"callback, suspend+resume, resume one batch entry later, timer firing between two batch entries, listener's "
+                        f"onAccepted, with a draining backlog) ({len(ex)} histories) + {len(rnd)} random programs of 2..5 clients and 0..2 timers "
+                        "whose callbacks suspend/resume/read/write/remove any client; the monitor requires: no onRead for a client between "
+                        "suspend() and resume() on the implementation's callback log")
+    ctx.log(f"batch stream: {len(hs)} histories, {len(diffs)} disagreement(s), monitor failures {len(bs.fail)}; {ctx.cov['batch_stream']}")
+    seen = set()
+    for h, bad in bs.fail:
+        sig = bad.split(":")[0]
+        if sig in seen or len(seen) >= 3:
+            continue
+        seen.add(sig)
+        small = c14_shrink(harness, h, sig)
+        ctx.violation("client property violated on the implementation: " + bad, "\n".join(small) + f"\n# {bad}\n", signature=sig)
+    if not bs.fail:
+        C.report_diffs(ctx, diffs, harness, C.driver_path(DRIVER), c13_batch_reference, C.default_eq, "server-suspend-batch")
+    elif diffs:
+        ctx.broken.append("correspondence server-suspend-batch: implementation and model differ")
+
+
 def check(ctx):
     if ctx.prop == "C13":
         check_c13(ctx)
@@ -879,17 +1035,19 @@ def replay(ctx, path):
     h = C.parse_replay(path)
     harness = build(ctx)
     C.lake_build([DRIVER])
-    ref = c13_reference if ctx.prop == "C13" else c14_reference
+    loop_dialect = bool(h) and h[0].split()[0] in ("script", "act", "mkpair", "mklisten", "mkconn", "psend", "pclose", "dial",
+                                                   "adv", "run", "runmt", "cfail")
+    ref = c14_reference if (ctx.prop == "C14" or loop_dialect) else c13_reference
     diffs = C.differential(ctx, harness, C.driver_path(DRIVER), [h], ref)
     for d in diffs:
         print(d.text())
         ctx.violation(f"replay: {d.kind}", d.text())
-    if ctx.prop == "C13" and not diffs:
+    if ctx.prop == "C13" and not diffs and not loop_dialect:
         out, _, _ = C.run_lines(harness, ["reset"] + h)
         bad = c13_stream_check(h, out[1:])
         if bad:
             ctx.violation("replay: stream property: " + bad, "\n".join(h) + "\n", signature="stream")
-    if ctx.prop == "C14":
+    if ctx.prop == "C14" or loop_dialect:
         out, _, _ = C.run_lines(harness, ["reset"] + h)
         bad = c14_monitor(h, out[1:])
         if bad:
